@@ -29,9 +29,12 @@ CLAIMED = {
              "_merge, merge_models). Comparator bodies are regenerated from registry.py (Gen/Cmp.v) and proved equal to the model's. "
              "X-registry is exhaustive over all similarity graphs on <=5 (quick) / <=6 (thorough) models.", "6 (C05)"),
     "C08": C("Theorems (Props/C08.v): every result of generate() is in the ordered normal form (generate_nfo, no hypothesis), a second "
-             "simplification pass is the identity and never fails (generate_second_pass_id/_total), optimize on raw terms yields nfo, "
-             "optimize is the identity on nfo terms. Tied by the exact (ordered) views X-infer and X-union — the latter exhaustive over "
-             "every multiset of <=3 members of a 35-type universe — and by the executable statement run on the implementation.", "6 (C08)"),
+             "simplification pass is the identity and never fails; optimize on raw terms yields nfo and is the identity on nfo terms; "
+             "REGISTRY stage (pipeline_nfo): for every successful run generate -> process_root -> merge_models every model of the "
+             "final registry is in ordered normal form and a further pass that succeeds returns the same graph (not proved: that "
+             "such a pass never exhausts the model's fuel); the second pass of merge_models is shown load-bearing by a concrete run. "
+             "Tied by the exact (ordered) views X-infer, X-registry and X-union — the latter exhaustive over every multiset of <=3 "
+             "members of a 35-type universe — and by the executable statement run on the implementation's final registries.", "6 (C08)"),
     "C09": C("Theorems (Props/C09.v): first-match detection in registration order (iff); resolve keeps a type covering every member "
              "under sound+acyclic replace pairs (refuted for cyclic pairs); disabled types never appear in generate() output; explicit "
              "recognisers of what int() / float() / the boolean rule accept, with int_ok_float_ok (EVERY string int() accepts, float() "
@@ -103,11 +106,13 @@ CLAIMED = {
              "whitespace-only preamble is dropped. The tokenizer model is compared with CPython (ast) on every CLI output of the run.",
              "6 (C19)"),
     "C02": C("Theorems (Props/C02.v): tightb (Sem/Tight.v) is the decidable statement of the property (evidence per union member, "
-             "element type, Optional, Literal string, Any; the documented widenings are exactly the places where evidence is weaker "
-             "than inhabitation); generate_tight: for EVERY non-empty list of well-formed samples, registry, replacement table, dict decision and "
-             "fuel on which generate succeeds, the result is tight for those samples (both premises are shown necessary). The registry "
-             "stages after generate are not covered by the theorem: the statement is evaluated on the model for every case of the "
-             "run (Vtight), the model is tied by X-infer, and the implementation's final registry is judged by the oracle: partial.",
+             "element type, Optional, Literal string, Any); generate_tight: for EVERY non-empty list of well-formed samples, registry, "
+             "replacement table, dict decision and fuel on which generate succeeds, the result is tight for those samples (both "
+             "premises shown necessary); generate_tight2, the sharper statement: str appears only with a REASON among the observed "
+             "strings (a long plain string, more than 15 distinct plain strings, or two different detected pseudo-types), each "
+             "reason shown necessary, a premature overflow rejected. The registry stages after generate are not under the theorem: "
+             "the statement is evaluated on the model for every case (Vtight), the model is tied by X-infer, and the implementation's "
+             "final registry is judged position by position by the oracle (same str rule): partial.",
              "6 (C02)"),
     "C06": C("The model is a function, so determinism reduces to the set-iteration sites: the translator enumerates every iteration "
              "site of the package and fails on one that is not in the reviewed table (237 sites, 40 over sets, each with the reason "
